@@ -121,6 +121,8 @@ protected:
   bool _subst_decl_recursive_protect;
   typedef std::vector<CPPTypeProxy *> Proxies;
   Proxies _proxies;
+
+  friend class CPPScope;
 };
 
 inline std::ostream &operator << (std::ostream &out, const CPPStructType::Base &base) {
